@@ -20,7 +20,7 @@ head -30 "$tmpdiff"
 . "$here/env.sh"
 "${MUTVSA:-$here/bin/vsa}" -p "$prop" -repo "$d" -evidence none -findings "$here/known_findings.txt"
 rc=$?
-h=$(md5sum < "$tmpdiff" | cut -c1-10)
+h=$(grep -v "^--- " "$tmpdiff" | grep -v "^+++ " | md5sum | cut -c1-10)
 mkdir -p "$here/selftest/$prop"
 if [ $rc -eq 1 ]; then cp "$tmpdiff" "$here/selftest/$prop/$h.diff"; rm -f "$here/selftest/$prop/$h.missed"
 elif [ $rc -eq 0 ]; then cp "$tmpdiff" "$here/selftest/$prop/$h.missed"; fi
